@@ -36,7 +36,9 @@ func (e *xmlEncoder) PrintDocumentSeparator(_ io.Writer) error {
 }
 
 func (e *xmlEncoder) PrintLeadingContent(_ io.Writer, content string) error {
-	e.leadingContent = content
+	// the yaml decoder marks the document separators (---) inside the leading content; the marker is not part of the comments
+	content = strings.ReplaceAll(content, "$yqDocSeparator$\n", "")
+	e.leadingContent = strings.ReplaceAll(content, "$yqDocSeparator$", "")
 	return nil
 }
 
